@@ -83,6 +83,25 @@ def gen_history(rnd, n):
     return hist
 
 
+def poison_state(st):
+    d = st.data
+    try:
+        import pandas as pd
+
+        if isinstance(d, list):
+            d.append("POISON")
+        elif isinstance(d, dict):
+            d["POISON"] = 1
+        elif isinstance(d, pd.DataFrame):
+            d["POISON"] = 0
+    except Exception:
+        pass
+    st.data = "POISONED" if not isinstance(d, (list, dict)) else d
+    st.metadata["query"] = "POISON/key"
+    st.metadata["status"] = "evaluation"
+    st.metadata["type_identifier"] = "text"
+
+
 def values_equal(a, b):
     from lqv import refinterp as R
 
@@ -117,8 +136,14 @@ def run_history(kind, hist, scratch, counters):
                 st.metadata["x_marker"] = "METAMARK%05dX" % h["n"]
                 marks.append(mark)
                 marks.append("METAMARK%05dX" % h["n"])
+                import copy as _copy
+
+                v = _copy.deepcopy(v)           # the model keeps its own copy
                 r = cache.store(st)
                 counters["store." + vt] = counters.get("store." + vt, 0) + 1
+                # caller-side mutation of the state that was handed to store() must not reach the cache
+                poison_state(st)
+                counters["caller_mutations_after_store"] = counters.get("caller_mutations_after_store", 0) + 1
                 admitted = cachecfg.admits(kind, h["attrs"]) if conditional else True
                 if r:
                     if conditional and not admitted:
